@@ -173,6 +173,19 @@ func cmdCheck(args []string) int {
 		todo = todo[1:]
 		r := verifyUnit(w, u, opt)
 		results = append(results, r)
+		if dd := os.Getenv("GOVC_DUMPDIR"); dd != "" && r.Ex != nil {
+			os.MkdirAll(dd, 0o755)
+			var b strings.Builder
+			b.WriteString(r.Ex.header())
+			for _, it := range r.Ex.items {
+				if it.Ob != nil {
+					b.WriteString("; OBLIGATION " + it.Ob.Label + "\n;   " + it.Ob.Goal + "\n")
+				} else {
+					b.WriteString("(assert " + it.Assume + ")\n")
+				}
+			}
+			os.WriteFile(dd+"/"+sanitize(u.Name)+".vc", []byte(b.String()), 0o644)
+		}
 		if r.Ex != nil {
 			for c := range r.Ex.calledContracts {
 				if cu, ok := byFn[c]; ok {
@@ -201,6 +214,7 @@ func cmdCheck(args []string) int {
 	loopsAnnot := 0
 	coverOK, coverAll := 0, 0
 	var otherFail []string
+	var slow []string
 	for _, r := range results {
 		u := r.Unit
 		if r.Refused != "" {
@@ -229,6 +243,9 @@ func cmdCheck(args []string) int {
 		for _, ob := range r.Obls {
 			relevant := len(ob.Props) == 0 || hasProp(ob.Props, prop) || calleeOf[u]
 			if ob.ok() {
+				if ob.Result.Retried {
+					slow = append(slow, ob.Name)
+				}
 				if relevant {
 					nObl++
 					nOK++
@@ -335,6 +352,7 @@ func cmdCheck(args []string) int {
 		"samples":                  samples,
 		"load_secs":                round2(loadS),
 		"failing_obligations_of_other_properties_in_shared_units": otherFail,
+		"obligations_needing_the_longer_second_attempt":           slow,
 	}
 	if level == "other" {
 		cov["explanation"] = meta.NotProof
